@@ -106,6 +106,16 @@ CHECKS = {
                 "each sodium_mprotect_* applies its own PROT_* constant to (unprotected_ptr, stored size). That the OS faults on the guard "
                 "page is not decided.",
     },
+    "C18": {
+        "engine": "PathAI (E1) + who-may-call (E2)",
+        "technique": "call-site argument analysis against header constants; who-may-call; path-shape analysis of the rejection sampler",
+        "text": "Static, for every installed source: each of the library's randombytes_buf call sites requests exactly the public size of the "
+                "secret it generates (header constants paired by the public function name; locals/globals filled entirely) and the bytes are "
+                "only post-processed by derivations from themselves; entropy/time/pid externals, RDRAND and the implementation slots are used "
+                "only inside randombytes/; randombytes_uniform returns 0 for n < 2, else (last draw) mod n on a path holding draw >= a "
+                "threshold that depends on n only, earlier draws being discarded only when below it; randombytes_buf_deterministic is one "
+                "ChaCha20-IETF call with the constant 'LibsodiumDRG' nonce. The threshold's value (2^32 mod n) is not decided.",
+    },
     "C19": {
         "engine": "PathAI (E1 typestate) + whole-library global-effect analysis (E2)",
         "technique": "lock typestate analysis of the initialiser + ownership analysis of every store to process-global state",
